@@ -560,3 +560,26 @@ def c14l(ctx):
             ok = ok and v is not None and unparse(v) == 'self.' + attr
         ctx.check(ok, 'WMSSource.combined_layer:hands-on-%s' % attr, 'the combined source gets %s of the sources it replaces' % attr, fn,
                   fail='the combined WMS source is built without %s=self.%s: combining two adjacent layers changes what is rendered' % (attr, attr))
+
+
+@rule('C14.m', floor=2)
+def c14m(ctx):
+    """combining adjacent requests never changes the picture: two sources are only combined when their coverages are *equal*
+    (C14.c), and equal coverages clip alike -- the equality of a coverage compares the `clip` flag next to SRS and geometry.  (With
+    clip left out of the comparison a clipping source and a merely limited one of the same geometry are merged into one request,
+    and the clipping is lost or applied to both)"""
+    for cname in ('BBOXCoverage', 'GeomCoverage'):
+        fn = ctx.fn('mapproxy/util/coverage.py:%s.__eq__' % cname)
+        g = fn.cfg
+        trues = g.find_stmts(lambda s: isinstance(s, ast.Return) and const_value(s.value, 0) is True)
+
+        def clip_eq(at):
+            return at.op == '==' and 'self.clip' in at.text and 'other.clip' in at.text
+        ok = bool(trues) and all(g.guarded(n, clip_eq, True) for n in trues)
+        if not ok:
+            # the comparison written as one expression: `return self.srs == other.srs and .. and self.clip == other.clip`
+            rets = [r for r in returns_of(fn.node) if r.value is not None and not isinstance(r.value, ast.Constant) and unparse(r.value) != 'NotImplemented']
+            ok = bool(rets) and not trues and all('self.clip' in unparse(r.value) and 'other.clip' in unparse(r.value) for r in rets)
+        ctx.check(ok, '%s.__eq__:compares-clip' % cname, 'coverages are only equal when their clip flags agree', fn,
+                  fail='%s.__eq__ ignores the clip flag: a clipping and a non-clipping source of one geometry count as compatible and are '
+                       'combined into one request' % cname)
